@@ -199,3 +199,25 @@ def scribble(x):
         except Exception:
             n = 0
     return n
+
+
+def deep_same(a, b):
+    """structural equality of nested python results (lists / tuples / numbers / strings) with NaN == NaN"""
+    if isinstance(a, np.ndarray):
+        a = a.tolist()
+    if isinstance(b, np.ndarray):
+        b = b.tolist()
+    if isinstance(a, np.generic):
+        a = a.item()
+    if isinstance(b, np.generic):
+        b = b.item()
+    if isinstance(a, (list, tuple)) and isinstance(b, (list, tuple)):
+        return len(a) == len(b) and all(deep_same(x, y) for x, y in zip(a, b))
+    if isinstance(a, dict) and isinstance(b, dict):
+        return a.keys() == b.keys() and all(deep_same(a[k], b[k]) for k in a)
+    if isinstance(a, float) and isinstance(b, float) and a != a and b != b:
+        return True
+    try:
+        return bool(a == b)
+    except Exception:
+        return False
